@@ -55,6 +55,10 @@ def strategy_c10(draw):
     prof = dict(BASE)
     if kind in ("fixed", "lin"):
         prof["bound_pats"] = [("free", 2), ("lower", 2), ("upper", 1), ("two", 3), ("fixed", 4)]
+        if draw(st.integers(0, 2)) == 0:
+            # fixed variables together with scale=True (scaling needs finite bounds on the other variables)
+            prof["bound_pats"] = [("two", 3), ("fixed", 2)]
+            prof["scale_prob"] = 70
     if kind in ("fixed", "scale"):
         # End-to-end bitwise comparison of these two restatements is made on problems without linear
         # constraints: with them the two statements hold numerically identical internal matrices, but
